@@ -405,6 +405,49 @@ func runC09(c *core.Ctx, idx int) {
 			c.Violationf("C09 fix pass changed a consistent database", info, "diff: %v", dump.Diff(d0, d, nil, 6))
 		}
 	}
+	// (A2) soundness inside the writing transaction: link / index writes that are not committed yet must be seen
+	// by a check (and a fix pass) running in the same transaction
+	{
+		ops := e.GenTx(r, 4, false)
+		scratch := e.M.Clone()
+		var applied []kmodel.Op
+		err := e.Db.Update(nil, func(ctx boltz.MutateContext) error {
+			for i := range ops {
+				op := ops[i]
+				cp := op
+				if p, _ := kmodel.Predict(scratch, &cp); p.Skip || p.Exp != kmodel.ExpOK {
+					break
+				}
+				if err := e.Apply(ctx, &op); err != nil {
+					return err
+				}
+				applied = append(applied, op)
+			}
+			for pass, fix := range []bool{false, true, false} {
+				for _, k := range e.Sc.Order {
+					k := k
+					if err := e.Sc.St(k).Store.CheckIntegrity(ctx, fix, func(err error, fixed bool) {
+						c.Violationf("C09 report on consistent uncommitted state inside the writing transaction: "+reportClass(err.Error()), map[string]any{"cfg": cfg.String(), "ops_in_tx": applied, "pass": pass},
+							"[pass %d fix=%v store %s] %s", pass, fix, k, err.Error())
+					}); err != nil {
+						return err
+					}
+				}
+			}
+			return nil
+		})
+		c.Eval()
+		c.Count("in_tx_checks", 1)
+		if err != nil {
+			c.Violationf("C09 check inside the writing transaction failed", map[string]any{"cfg": cfg.String(), "ops_in_tx": applied}, "%v", err)
+			e.Resync()
+		} else {
+			e.M = scratch
+			if ds := e.Check("C09 after in-transaction check", nil); len(ds) > 0 {
+				return
+			}
+		}
+	}
 	// (B) corrupt
 	all := genCorruptions(r, e)
 	if len(all) == 0 {
